@@ -75,6 +75,14 @@ func directed() map[string]*ach.File {
 	// an effective entry date that is not a calendar date
 	out["effective-date-not-a-date"] = mk(1, nil, func(bh *ach.BatchHeader) { bh.EffectiveEntryDate = "191345" })
 	out["effective-date-short"] = mk(1, nil, func(bh *ach.BatchHeader) { bh.EffectiveEntryDate = "19081" })
+	// multi-byte characters in front of the SEC columns and a company identification ending in "IAT":
+	// bytes 50..53 of the batch header read "IAT" (Reader.parseBH sliced bytes before the fix 272ca522)
+	out["multibyte-company-iat-id"] = mk(2, nil, func(bh *ach.BatchHeader) {
+		bh.CompanyName = "Café Ñandú SA"
+		bh.CompanyIdentification = "1234567IAT"
+	})
+	// a company named IATCOR: the reader recognises IAT notification-of-change batches by that text in columns 4..20
+	out["company-name-iatcor"] = mk(1, nil, func(bh *ach.BatchHeader) { bh.CompanyName = "IATCOR" })
 	// discretionary data / identification with inner blanks only (control)
 	out["plain"] = mk(3, nil, nil)
 	for k, v := range out {
